@@ -53,20 +53,37 @@ def gen_case(rng, index, tier):
                         spellings=SPELL, name_kw={'allow_bad_utf8': False})
     if arg['spelling'].startswith('-'):
         arg['spelling'] = './' + arg['spelling']
+    args = [arg]
+    if rng.random() < 0.3:
+        # a second argument, preferably on another volume: each argument gets
+        # the trash dir of ITS volume (nothing may be remembered from the first)
+        used = set([(os.path.dirname(arg['rel']), os.path.basename(arg['rel']))])
+        others = [m for m in L.mounts if not arg['rel'].startswith(workdirs[m] + '/')]
+        arg2 = c01.add_entry(L, rng, workdirs, 1, tag + 'b', used, kinds=KINDS,
+                             spellings=['rel', 'abs'],
+                             vol=rng.choice(others) if others and rng.random() < 0.8 else None,
+                             name_kw={'allow_bad_utf8': False})
+        if arg2['spelling'].startswith('-'):
+            arg2['spelling'] = './' + arg2['spelling']
+        if arg2['rel'] != arg['rel'] and not arg2['rel'].startswith(arg['rel'] + '/') \
+                and not arg['rel'].startswith(arg2['rel'] + '/'):
+            args.append(arg2)
+            if rng.random() < 0.5:
+                args.reverse()
     opts, stdin, env_extra, optclass = c01.pick_options(
-        L, rng, workdirs, [arg], index, allowed=set(OPTS))
-    c01.add_stale(L, rng, [arg], index, p=0.25)
+        L, rng, workdirs, args, index, allowed=set(OPTS))
+    c01.add_stale(L, rng, args, index, p=0.25)
     c01.add_partial_trash_dirs(L, rng)
     case = L.desc()
     case['env'] = dict(case['env'], **env_extra)
-    case['args'] = [arg]
+    case['args'] = args
     case['opts'] = opts
     case['optclass'] = optclass
     case['factors'] = {
         'nvol': len(L.mounts), 'home_own': 'home' in L.mounts,
         'xdg': L.xdg, 'home_set': home_set, 'uid': L.uid,
         'ht_link': ht_link, 'opt': optclass,
-        'nested': 'v1/nested' in L.mounts,
+        'nested': 'v1/nested' in L.mounts, 'nargs': len(args),
     }
     case['states'] = {'top': L.top_state, 'alt': L.alt_state}
     return case
@@ -75,77 +92,88 @@ def gen_case(rng, index, tier):
 def run_case(case):
     out = {'violations': [], 'obs': {}, 'features': []}
     obs = out['obs']
-    a = case['args'][0]
     with world.World(case) as w:
         cwd = w.cwd()
-        ent_abs = w.abs(a['rel'])
-        spelled = world.subst(a['spelling'], w.R)
         fb = c01.fallback_on(case)
         tdo = None
         if '--trash-dir' in case['opts']:
             tdo = world.subst(case['opts'][case['opts'].index('--trash-dir') + 1], w.R)
         env = w.env()
-        exp, fvol = spec.expected_trash_dirs(ent_abs, env, w.uid, w.mounts,
-                                             trash_dir_opt=tdo, fallback=fb)
-        # 'file/' (ENOTDIR) and 'dangling-link/' (ENOENT) are spellings the
-        # kernel itself does not resolve: refusing them as nonexistent is fine
-        kernel_resolves = os.path.lexists(
-            spelled if spelled.startswith('/') else os.path.join(cwd, spelled))
+        pre = []
+        for a in case['args']:
+            ent_abs = w.abs(a['rel'])
+            spelled = world.subst(a['spelling'], w.R)
+            exp, fvol = spec.expected_trash_dirs(ent_abs, env, w.uid, w.mounts,
+                                                 trash_dir_opt=tdo, fallback=fb)
+            # 'file/' (ENOTDIR) and 'dangling-link/' (ENOENT) are spellings the
+            # kernel itself does not resolve: refusing them as nonexistent is fine
+            kernel_resolves = os.path.lexists(
+                spelled if spelled.startswith('/') else os.path.join(cwd, spelled))
+            pre.append((a, ent_abs, spelled, exp, fvol, kernel_resolves))
         s0 = w.snapshot()
-        argv = [world.subst(o, w.R) for o in case['opts']] + ['--', spelled]
+        argv = [world.subst(o, w.R) for o in case['opts']] + ['--'] + \
+            [p[2] for p in pre]
         r = run.run(w, 'put', argv, stdin=b'y\ny\ny\n')
         s1 = w.snapshot()
         if r.timeout or r.audit_ok() is False:
             out['verdict'] = 'inconclusive'
             out['why'] = 'watchdog' if r.timeout else 'audit mismatch'
             return out
-        fvol_state = None
-        volrel = w.rel(fvol)
-        if volrel is not None:
-            fvol_state = (case['states']['top'].get(volrel),
-                          case['states']['alt'].get(volrel))
         out['features'] += ['%s=%s' % kv for kv in sorted(case['factors'].items())]
-        out['features'] += ['top@filevol=%s' % (fvol_state[0] if fvol_state else '?'),
-                            'alt@filevol=%s' % (fvol_state[1] if fvol_state else '?'),
-                            'sp:' + a['class'], 'kind:' + a['kind']]
-        A = putcheck.analyze(s0, s1, [a['rel']])
-        o = A.outcomes[0]
-        st = o['state']
-
-        def viol(mech, **kw):
-            d = {'run': r.brief(), 'outcome': o, 'expected': exp,
-                 'file_volume': fvol, 'states': case['states'],
-                 'env': case['env'], 'uid': case['uid'],
-                 'frame': [(k, p, snap.fmt_entry(x), snap.fmt_entry(y))
-                           for k, p, x, y in A.frame[:8]]}
-            d.update(kw)
-            out['violations'].append({'mechanism': mech, 'detail': d})
-
+        A = putcheck.analyze(s0, s1, [a['rel'] for a in case['args']])
         if r.out:
-            viol('prompted-or-printed-on-stdout', stdout=r.outtext()[:200])
+            out['violations'].append({'mechanism': 'prompted-or-printed-on-stdout',
+                                      'detail': {'stdout': r.outtext()[:200]}})
         if r.escapes():
-            viol('fence-escape', escapes=r.escapes()[:4])
-        known_c01 = st == 'ALTERED' and o.get('only_symlink_mtime') and fb \
-            and any(e['op'] == 'symlink' for e in r.mut())
-        if known_c01:
-            st = 'TRASHED'
-            o = dict(o, trash=putcheck.trash_of(o['payload']))
-            obs['fallback_mtime_known_c01'] = 1
-        if exp and not kernel_resolves and st == 'UNTOUCHED' and r.exit != 0:
-            obs['unresolvable_spelling_refused'] = 1
-        elif exp:
-            obs['expected_some'] = 1
-            want = os.path.realpath(exp[0])
-            if st != 'TRASHED':
-                viol('not-trashed-though-usable-dir-exists:%s/%s' % (
-                    st, case['optclass']))
-            else:
+            out['violations'].append({'mechanism': 'fence-escape',
+                                      'detail': {'escapes': r.escapes()[:4],
+                                                 'run': r.brief()}})
+        all_ok_states = True
+        any_known = False
+        for (a, ent_abs, spelled, exp, fvol, kernel_resolves), o in zip(pre, A.outcomes):
+            st = o['state']
+            fvol_state = None
+            volrel = w.rel(fvol)
+            if volrel is not None:
+                fvol_state = (case['states']['top'].get(volrel),
+                              case['states']['alt'].get(volrel))
+            out['features'] += ['top@filevol=%s' % (fvol_state[0] if fvol_state else '?'),
+                                'alt@filevol=%s' % (fvol_state[1] if fvol_state else '?'),
+                                'sp:' + a['class'], 'kind:' + a['kind']]
+
+            def viol(mech, **kw):
+                d = {'run': r.brief(), 'arg': a['spelling'], 'outcome': o,
+                     'expected': exp, 'file_volume': fvol,
+                     'states': case['states'], 'env': case['env'],
+                     'uid': case['uid'],
+                     'frame': [(k, p, snap.fmt_entry(x), snap.fmt_entry(y))
+                               for k, p, x, y in A.frame[:8]]}
+                d.update(kw)
+                out['violations'].append({'mechanism': mech, 'detail': d})
+
+            known_c01 = st == 'ALTERED' and o.get('only_symlink_mtime') and fb \
+                and any(e['op'] == 'symlink' for e in r.mut())
+            if known_c01:
+                st = 'TRASHED'
+                o = dict(o, trash=putcheck.trash_of(o['payload']))
+                obs['fallback_mtime_known_c01'] = 1
+                any_known = True
+            if st not in ('TRASHED', 'UNTOUCHED'):
+                all_ok_states = False
+            if exp and not kernel_resolves and st == 'UNTOUCHED' and r.exit != 0:
+                obs['unresolvable_spelling_refused'] = obs.get('unresolvable_spelling_refused', 0) + 1
+            elif exp:
+                obs['expected_some'] = obs.get('expected_some', 0) + 1
+                want = os.path.realpath(exp[0])
+                if st != 'TRASHED':
+                    viol('not-trashed-though-usable-dir-exists:%s/%s' % (
+                        st, case['optclass']))
+                    continue
                 got = os.path.realpath(w.abs(o['trash']))
                 if got != want:
                     viol('wrong-trash-dir/%s' % case['optclass'], used=got)
                 else:
-                    obs['right_dir'] = 1
-                # modes of created directories
+                    obs['right_dir'] = obs.get('right_dir', 0) + 1
                 tr = o['trash']
                 for sub in ('', '/files', '/info'):
                     k = tr + sub
@@ -153,24 +181,25 @@ def run_case(case):
                         obs['dirs_created_checked'] = obs.get('dirs_created_checked', 0) + 1
                         if s1[k][1] != 0o700:
                             viol('created-dir-mode-%04o' % s1[k][1], path=k)
-                # the delivering rename
-                fdir = os.path.realpath(w.abs(tr)) + '/files/'
+                # the rename that delivered THIS payload
+                dst_real = os.path.realpath(w.abs(tr)) + '/files/' + o.get('name', '')
                 deliver = [e for e in r.events if e['op'] in ('rename', 'replace')
-                           and e.get('r') == 'ok' and e['p'][1].startswith(fdir)]
-                copyish = [e for e in r.mut() if e['op'] in
-                           ('sendfile', 'symlink', 'copy_file_range') or
-                           (e['op'] == 'bopen' and e.get('r') == 'ok') or
-                           (e['op'] == 'mkdir' and e['p'][0].startswith(fdir))]
-                is_fb = fb and len(exp) >= 1 and \
-                    spec.volume_of(want, w.mounts) != fvol
+                           and e.get('r') == 'ok' and e['p'][1] == dst_real]
+                fdir = dst_real
+                copyish = [e for e in r.mut() if e['p'] and e['p'][-1] and
+                           (e['p'][-1] == fdir or e['p'][-1].startswith(fdir + '/'))
+                           and (e['op'] in ('sendfile', 'symlink', 'copy_file_range',
+                                            'mkdir') or
+                                (e['op'] == 'bopen' and e.get('r') == 'ok'))]
+                is_fb = fb and spec.volume_of(want, w.mounts) != fvol
                 if is_fb:
-                    obs['fallback_copies'] = 1
+                    obs['fallback_copies'] = obs.get('fallback_copies', 0) + 1
                 else:
                     if len(deliver) != 1:
                         viol('payload-not-delivered-by-one-rename',
                              renames=deliver[:3], copyish=copyish[:3])
                     else:
-                        obs['delivering_renames'] = 1
+                        obs['delivering_renames'] = obs.get('delivering_renames', 0) + 1
                         src, dst = deliver[0]['p']
                         sv = spec.volume_of(os.path.dirname(src), w.mounts)
                         dv = spec.volume_of(os.path.dirname(dst), w.mounts)
@@ -178,22 +207,27 @@ def run_case(case):
                             viol('cross-volume-rename', src=src, dst=dst)
                     if copyish:
                         viol('copy-events-without-fallback', ev=copyish[:4])
-        else:
-            obs['expected_none'] = 1
-            if st != 'UNTOUCHED':
-                viol('trashed-though-no-dir-allowed:%s/%s' % (st, case['optclass']))
-            if r.exit == 0:
-                viol('exit0-though-not-trashable')
-            elif not putcheck.reported_failed(r.errtext(),
-                                              putcheck.stderr_encode(spelled)):
-                viol('failure-not-reported')
-        if A.frame and st in ('TRASHED', 'UNTOUCHED') and not known_c01:
-            viol('frame:' + '+'.join(sorted(set(f[0] for f in A.frame))))
+            else:
+                obs['expected_none'] = obs.get('expected_none', 0) + 1
+                if st != 'UNTOUCHED':
+                    viol('trashed-though-no-dir-allowed:%s/%s' % (st, case['optclass']))
+                if r.exit == 0:
+                    viol('exit0-though-not-trashable')
+                elif not putcheck.reported_failed(r.errtext(),
+                                                  putcheck.stderr_encode(spelled)):
+                    viol('failure-not-reported')
+        if A.frame and all_ok_states and not any_known:
+            out['violations'].append({
+                'mechanism': 'frame:' + '+'.join(sorted(set(f[0] for f in A.frame))),
+                'detail': {'run': r.brief(),
+                           'frame': [(k, p, snap.fmt_entry(x), snap.fmt_entry(y))
+                                     for k, p, x, y in A.frame[:8]]}})
         f = case['factors']
         out['nontrivial'] = f['nvol'] >= 2 or f['xdg'] != 'unset' or \
             not f['home_set']
-        out['sample_obs'] = {'exit': r.exit, 'state': st, 'expected': exp,
-                             'used': o.get('trash')}
+        out['sample_obs'] = {'exit': r.exit,
+                             'states': [o['state'] for o in A.outcomes],
+                             'expected': [p[3] for p in pre]}
     out['verdict'] = 'violation' if out['violations'] else 'ok'
     return out
 
